@@ -392,6 +392,19 @@ def use(case):
         _ACTIVE["installed"] = True
 
 
+def big_cases(seed, thorough=False):
+    """a few meshes well above the sizes of the random families (size-dependent code paths: > 256, > 2^15 elements ... )"""
+    rng = rng_for(seed, "big")
+    out = []
+    fams = [("icosphere3", icosphere(3)), ("torus24x20", torus(24, 20)), ("grid20x15-lifted", (lift(rng, grid(20, 15)[0]), grid(20, 15)[1]))]
+    if thorough:
+        fams += [("icosphere5", icosphere(5)), ("torus150x120", torus(150, 120))]          # 10242 / 18000 vertices, > 2^15 triangles
+    for name, (v, t) in fams:
+        v = jitter(rng, np.asarray(v, float) * rng.uniform(0.7, 1.4, 3), 0.002)
+        out.append(dict(v=v, t=np.asarray(t, np.int64), tags={name, "big"}, name=name))
+    return out
+
+
 def int_cases():
     """meshes given by integer coordinates (as one writes small examples / voxel meshes), vertex array of integer dtype"""
     ov, ot = octahedron()
